@@ -881,30 +881,41 @@ package framework
 // never runs a reverse closure, and leaves the session skeleton alone. Everything else may change
 // (fit errors recorded on the job, plugin-private state), hence `modifies *`.
 
-// ASSUMED frame of one plugin callback (stated in the `type:` contracts of package api)
-//@ define pluginFrame() bool = logsSame() && noEmission() && reversals() == old(reversals()) && reverseFailures() == old(reverseFailures()) && (forall st *Statement :: st.ssn == old(st.ssn))
-
-// the session skeleton, piecewise (each piece survives a callback through the `stable` declarations at the end of this
-// file; together they give sessionKept(ssn) from sessOK(ssn))
+// ASSUMED frame of one plugin callback (stated in the `type:` contracts of package api): a callback touches no
+// statement (log, session link), calls none of the cache emission points and runs no reverse closure. Both conjuncts
+// are equalities for ALL objects, so the frame composes over any number of callbacks.
+// The session skeleton (Session.ClusterInfo / Cache / eventHandlers, the handler cells, ClusterInfo.Nodes / PodGroupInfos
+// and the contents of these two tables) is NOT assumed for callbacks whose signature lets govc check it: the wrappers opt
+// into the `stable` declarations (`usestable`), i.e. govc checks mechanically that no function reachable from any
+// address-taken function of the callback's signature stores to these fields / maps. Only for `func()` hooks
+// (OnJobSolutionStartFn: every closure of type func() is a candidate) the check cannot succeed; there skeletonFrame()
+// is part of the assumption.
+//@ define stmtsSame() bool = forall st *Statement :: st.operations == old(st.operations) && st.ssn == old(st.ssn)
+//@ define countersSame() bool = noEmission() && reversals() == old(reversals()) && reverseFailures() == old(reverseFailures())
+//@ define sessionsSame() bool = forall s *Session :: s.ClusterInfo == old(s.ClusterInfo) && s.Cache == old(s.Cache) && s.eventHandlers == old(s.eventHandlers)
+//@ define clustersSame() bool = forall c *api.ClusterInfo :: c.Nodes == old(c.Nodes) && c.PodGroupInfos == old(c.PodGroupInfos)
+//@ define handlerCellsSame() bool = forall h **EventHandler :: *h == old(*h)
+//@ define nodeTablesSame() bool = forall c *api.ClusterInfo, k string :: (k in c.Nodes) == old(k in c.Nodes) && c.Nodes[k] == old(c.Nodes[k])
+//@ define jobTablesSame() bool = forall c *api.ClusterInfo, k common_info.PodGroupID :: (k in c.PodGroupInfos) == old(k in c.PodGroupInfos) && c.PodGroupInfos[k] == old(c.PodGroupInfos[k])
+//@ define skeletonFrame() bool = sessionsSame() && clustersSame() && handlerCellsSame() && nodeTablesSame() && jobTablesSame()
+//@ define solutionStartHooksSame() bool = (forall s *Session :: s.OnJobSolutionStartFns == old(s.OnJobSolutionStartFns)) && (forall h *api.OnJobSolutionStartFn :: *h == old(*h))
+//@ define pluginFrame() bool = stmtsSame() && countersSame()
 //@ define skelSame(ssn *Session) bool = ssn.ClusterInfo == old(ssn.ClusterInfo) && ssn.Cache == old(ssn.Cache) && ssn.eventHandlers == old(ssn.eventHandlers) && ssn.ClusterInfo.Nodes == old(ssn.ClusterInfo.Nodes) && ssn.ClusterInfo.PodGroupInfos == old(ssn.ClusterInfo.PodGroupInfos)
-//@ define handlersSame(ssn *Session) bool = forall i int :: 0 <= i && i < len(ssn.eventHandlers) ==> ssn.eventHandlers[i] == old(ssn.eventHandlers[i])
-//@ define nodesSame(ssn *Session) bool = forall k string :: (k in ssn.ClusterInfo.Nodes) == old(k in ssn.ClusterInfo.Nodes) && ssn.ClusterInfo.Nodes[k] == old(ssn.ClusterInfo.Nodes[k])
-//@ define jobsSame(ssn *Session) bool = forall k common_info.PodGroupID :: (k in ssn.ClusterInfo.PodGroupInfos) == old(k in ssn.ClusterInfo.PodGroupInfos) && ssn.ClusterInfo.PodGroupInfos[k] == old(ssn.ClusterInfo.PodGroupInfos[k])
 
 // C04 "every pod the scheduler binds or nominates goes to a node that ... (all hard constraints)": the session
 // verdict is the conjunction of EVERY registered predicate (first error wins).
 //@ define predicatesOK(ssn *Session, task *pod_info.PodInfo, job *podgroup_info.PodGroupInfo, node *node_info.NodeInfo) bool = forall i int :: 0 <= i && i < len(ssn.PredicateFns) ==> api.predicateOK(ssn.PredicateFns[i], task, job, node)
 //@ func (*Session).PredicateFn
 //@   props C01 C03 C04
-//@   usestable Session.PredicateFns []api.PredicateFn Session.ClusterInfo Session.Cache Session.eventHandlers []*EventHandler ClusterInfo.PodGroupInfos ClusterInfo.Nodes map[common_info.PodGroupID]*podgroup_info.PodGroupInfo map[string]*node_info.NodeInfo
+//@   usestable []Operation Session.PredicateFns []api.PredicateFn Session.ClusterInfo Session.Cache Session.eventHandlers []*EventHandler ClusterInfo.PodGroupInfos ClusterInfo.Nodes map[common_info.PodGroupID]*podgroup_info.PodGroupInfo map[string]*node_info.NodeInfo
 //@   requires ssn != nil && task != nil
-//@   requires forall i int :: 0 <= i && i < len(ssn.PredicateFns) ==> ssn.PredicateFns[i] != nil
+//@   assume forall i int :: 0 <= i && i < len(ssn.PredicateFns) ==> ssn.PredicateFns[i] != nil
+//@   note assumed: no nil function is registered (AddPredicateFn is only called with method values of plugins)
 //@   modifies *
 //@   loop 1
 //@     modifies *
 //@     invariant 0 - 1 <= rangeindex && rangeindex < len(ssn.PredicateFns)
 //@     invariant ssn.PredicateFns == old(ssn.PredicateFns)
-//@     invariant forall i int :: 0 <= i && i < len(ssn.PredicateFns) ==> ssn.PredicateFns[i] == old(ssn.PredicateFns[i])
 //@     invariant forall i int :: 0 <= i && i <= rangeindex ==> api.predicateOK(old(ssn.PredicateFns[i]), task, job, node)
 //@     invariant pluginFrame()
 //@     invariant skelSame(ssn)
@@ -928,41 +939,187 @@ package framework
 //@   ensures [virtual] noEmission() && reversals() == old(reversals()) && reverseFailures() == old(reverseFailures())
 //@   ensures [sessionKept] old(sessOK(ssn)) ==> sessionKept(ssn)
 //@ end
+//@ define prePredicatesOK(ssn *Session, task *pod_info.PodInfo, job *podgroup_info.PodGroupInfo) bool = forall i int :: 0 <= i && i < len(ssn.PrePredicateFns) ==> api.prePredicateOK(ssn.PrePredicateFns[i], task, job)
 //@ func (*Session).PrePredicateFn
 //@   props C01 C03 C04
-//@   trusted
-//@   note assumed frame of the registered PrePredicateFns (function values)
-//@   requires ssn != nil
+//@   usestable []Operation Session.PrePredicateFns []api.PrePredicateFn Session.ClusterInfo Session.Cache Session.eventHandlers []*EventHandler ClusterInfo.PodGroupInfos ClusterInfo.Nodes map[common_info.PodGroupID]*podgroup_info.PodGroupInfo map[string]*node_info.NodeInfo
+//@   requires ssn != nil && task != nil
+//@   assume forall i int :: 0 <= i && i < len(ssn.PrePredicateFns) ==> ssn.PrePredicateFns[i] != nil
+//@   note assumed: no nil function is registered (AddPrePredicateFn is only called with method values of plugins)
 //@   modifies *
+//@   loop 1
+//@     modifies *
+//@     invariant 0 - 1 <= rangeindex && rangeindex < len(ssn.PrePredicateFns)
+//@     invariant ssn.PrePredicateFns == old(ssn.PrePredicateFns)
+//@     invariant forall i int :: 0 <= i && i <= rangeindex ==> api.prePredicateOK(old(ssn.PrePredicateFns[i]), task, job)
+//@     invariant pluginFrame()
+//@     invariant skelSame(ssn)
+//@     decreases len(ssn.PrePredicateFns) - rangeindex
+//@   ensures [allPrePredicates] result == nil ==> old(prePredicatesOK(ssn, task, job))
+//@   ensures [firstErrorWins] old(prePredicatesOK(ssn, task, job)) ==> result == nil
 //@   ensures [logsSame] logsSame()
 //@   ensures [virtual] noEmission() && reversals() == old(reversals()) && reverseFailures() == old(reverseFailures())
 //@   ensures [sessionKept] old(sessOK(ssn)) ==> sessionKept(ssn)
 //@ end
+
+// every registered PreJobAllocationFn is called exactly once, in registration order (ghost call log of package api)
 //@ func (*Session).PreJobAllocation
 //@   props C01 C03 C04
-//@   trusted
-//@   note assumed frame of the registered PreJobAllocationFns (function values)
+//@   usestable []Operation Session.PreJobAllocationFns []api.PreJobAllocationFn Session.ClusterInfo Session.Cache Session.eventHandlers []*EventHandler ClusterInfo.PodGroupInfos ClusterInfo.Nodes map[common_info.PodGroupID]*podgroup_info.PodGroupInfo map[string]*node_info.NodeInfo
 //@   requires ssn != nil
+//@   assume forall i int :: 0 <= i && i < len(ssn.PreJobAllocationFns) ==> ssn.PreJobAllocationFns[i] != nil
+//@   note assumed: no nil function is registered
 //@   modifies *
+//@   loop 1
+//@     modifies *
+//@     invariant 0 - 1 <= rangeindex && rangeindex < len(ssn.PreJobAllocationFns)
+//@     invariant ssn.PreJobAllocationFns == old(ssn.PreJobAllocationFns)
+//@     invariant api.preJobAllocationCalls() == old(api.preJobAllocationCalls()) + rangeindex + 1
+//@     invariant forall i int :: 0 <= i && i <= rangeindex ==> api.preJobAllocationAt(old(api.preJobAllocationCalls()) + i + 1) == old(ssn.PreJobAllocationFns[i])
+//@     invariant pluginFrame()
+//@     invariant skelSame(ssn)
+//@     invariant old(podgroup_info.setsOK(job) && podgroup_info.allTasksOK(job)) ==> podgroup_info.setsOK(job) && podgroup_info.allTasksOK(job)
+//@     decreases len(ssn.PreJobAllocationFns) - rangeindex
+//@   ensures [eachOnce] api.preJobAllocationCalls() == old(api.preJobAllocationCalls()) + old(len(ssn.PreJobAllocationFns))
+//@   ensures [inOrder] forall i int :: 0 <= i && i < old(len(ssn.PreJobAllocationFns)) ==> api.preJobAllocationAt(old(api.preJobAllocationCalls()) + i + 1) == old(ssn.PreJobAllocationFns[i])
 //@   ensures [logsSame] logsSame()
 //@   ensures [virtual] noEmission() && reversals() == old(reversals()) && reverseFailures() == old(reverseFailures())
 //@   ensures [sessionKept] old(sessOK(ssn)) ==> sessionKept(ssn)
 //@   ensures [jobKept] old(podgroup_info.setsOK(job) && podgroup_info.allTasksOK(job)) ==> podgroup_info.setsOK(job) && podgroup_info.allTasksOK(job)
-//@   note [jobKept] assumed: the registered PreJobAllocationFns (topology) do not touch the job's pod sets / tasks
+//@   note [jobKept] rests on the assumption in type:PreJobAllocationFn (the registered functions - topology - do not touch the job's pod sets / tasks)
 //@ end
+
+// C08 "no decision raises ... above its configured limit": the job-level capacity gate. The body consults the FIRST
+// registered function only (`for ... { return fn(...) }`); with no function registered every job is schedulable.
+//@ define firstJobCapacityOK(ssn *Session, job *podgroup_info.PodGroupInfo) bool = len(ssn.IsJobOverCapacityFns) == 0 || api.jobCapacityOK(ssn.IsJobOverCapacityFns[0], job)
+//@ define allJobCapacityOK(ssn *Session, job *podgroup_info.PodGroupInfo) bool = forall i int :: 0 <= i && i < len(ssn.IsJobOverCapacityFns) ==> api.jobCapacityOK(ssn.IsJobOverCapacityFns[i], job)
 //@ func (*Session).IsJobOverQueueCapacityFn
-//@   props C01 C03 C04
-//@   trusted
-//@   note assumed frame of the registered IsJobOverCapacityFns (function values); every registered function (proportion) returns a non-nil result, as does the fallback
+//@   props C01 C03 C04 C08
+//@   usestable []Operation Session.ClusterInfo Session.Cache Session.eventHandlers []*EventHandler ClusterInfo.PodGroupInfos ClusterInfo.Nodes map[common_info.PodGroupID]*podgroup_info.PodGroupInfo map[string]*node_info.NodeInfo
 //@   requires ssn != nil
+//@   assume forall i int :: 0 <= i && i < len(ssn.IsJobOverCapacityFns) ==> ssn.IsJobOverCapacityFns[i] != nil
+//@   note assumed: no nil function is registered
+//@   assume jobCapacityVerdict(ssn, job) == firstJobCapacityOK(ssn, job)
+//@   note jobCapacityVerdict(ssn, job) stays a declared NAME for the verdict of this call, tied to the per-callback verdicts by the `assume` above (a definition of the name at the entry state). It cannot be a `define` over ssn.IsJobOverCapacityFns: the callers under contract (common.AllocateJob, allocate.attemptToAllocateJob) state their capacity gate in their post-state, after `modifies *` steps, and do not opt into `stable Session.IsJobOverCapacityFns`, so a define would be evaluated on a havocked registration slice there. The name equates the verdicts of two calls for the same (ssn, job), which is only meaningful while the queue/job state is unchanged between them - the callers under contract call it once
 //@   modifies *
+//@   ensures [firstDecides] result.IsSchedulable == old(firstJobCapacityOK(ssn, job))
+//@   ensures [allRegisteredIfSingle] old(len(ssn.IsJobOverCapacityFns)) <= 1 ==> (result.IsSchedulable <==> old(allJobCapacityOK(ssn, job)))
 //@   ensures [logsSame] logsSame()
 //@   ensures [virtual] noEmission() && reversals() == old(reversals()) && reverseFailures() == old(reverseFailures())
 //@   ensures [sessionKept] old(sessOK(ssn)) ==> sessionKept(ssn)
 //@   ensures [resultNonNil] result != nil
 //@   ensures [verdictNamed] result.IsSchedulable == jobCapacityVerdict(ssn, job)
-//@   note jobCapacityVerdict(ssn, job) is a naming device for the callback's verdict at this call (so that a caller can refer to it after later havocs); it equates the verdicts of two calls for the same (ssn, job), which is only meaningful while the queue/job state is unchanged between them - the callers under contract (common.AllocateJob) call it once
 //@ end
+
+//@ define firstQuotaOK(ssn *Session, job *podgroup_info.PodGroupInfo) bool = len(ssn.IsNonPreemptibleJobOverQueueQuotaFns) == 0 || api.jobCapacityOK(ssn.IsNonPreemptibleJobOverQueueQuotaFns[0], job)
+//@ define allQuotaOK(ssn *Session, job *podgroup_info.PodGroupInfo) bool = forall i int :: 0 <= i && i < len(ssn.IsNonPreemptibleJobOverQueueQuotaFns) ==> api.jobCapacityOK(ssn.IsNonPreemptibleJobOverQueueQuotaFns[i], job)
+//@ func (*Session).IsNonPreemptibleJobOverQueueQuotaFn
+//@   props C08 C06
+//@   usestable []Operation Session.ClusterInfo Session.Cache Session.eventHandlers []*EventHandler ClusterInfo.PodGroupInfos ClusterInfo.Nodes map[common_info.PodGroupID]*podgroup_info.PodGroupInfo map[string]*node_info.NodeInfo
+//@   requires ssn != nil
+//@   assume forall i int :: 0 <= i && i < len(ssn.IsNonPreemptibleJobOverQueueQuotaFns) ==> ssn.IsNonPreemptibleJobOverQueueQuotaFns[i] != nil
+//@   note assumed: no nil function is registered
+//@   modifies *
+//@   ensures [firstDecides] result.IsSchedulable == old(firstQuotaOK(ssn, job))
+//@   ensures [allRegisteredIfSingle] old(len(ssn.IsNonPreemptibleJobOverQueueQuotaFns)) <= 1 ==> (result.IsSchedulable <==> old(allQuotaOK(ssn, job)))
+//@   ensures [logsSame] logsSame()
+//@   ensures [virtual] noEmission() && reversals() == old(reversals()) && reverseFailures() == old(reverseFailures())
+//@   ensures [sessionKept] old(sessOK(ssn)) ==> sessionKept(ssn)
+//@   ensures [resultNonNil] result != nil
+//@ end
+
+//@ define firstTaskCapacityOK(ssn *Session, task *pod_info.PodInfo, job *podgroup_info.PodGroupInfo, node *node_info.NodeInfo) bool = len(ssn.IsTaskAllocationOnNodeOverCapacityFns) == 0 || api.taskCapacityOK(ssn.IsTaskAllocationOnNodeOverCapacityFns[0], task, job, node)
+//@ define allTaskCapacityOK(ssn *Session, task *pod_info.PodInfo, job *podgroup_info.PodGroupInfo, node *node_info.NodeInfo) bool = forall i int :: 0 <= i && i < len(ssn.IsTaskAllocationOnNodeOverCapacityFns) ==> api.taskCapacityOK(ssn.IsTaskAllocationOnNodeOverCapacityFns[i], task, job, node)
+//@ func (*Session).IsTaskAllocationOnNodeOverCapacityFn
+//@   props C08 C04
+//@   usestable []Operation Session.ClusterInfo Session.Cache Session.eventHandlers []*EventHandler ClusterInfo.PodGroupInfos ClusterInfo.Nodes map[common_info.PodGroupID]*podgroup_info.PodGroupInfo map[string]*node_info.NodeInfo
+//@   requires ssn != nil
+//@   assume forall i int :: 0 <= i && i < len(ssn.IsTaskAllocationOnNodeOverCapacityFns) ==> ssn.IsTaskAllocationOnNodeOverCapacityFns[i] != nil
+//@   note assumed: no nil function is registered
+//@   modifies *
+//@   ensures [firstDecides] result.IsSchedulable == old(firstTaskCapacityOK(ssn, task, job, node))
+//@   ensures [allRegisteredIfSingle] old(len(ssn.IsTaskAllocationOnNodeOverCapacityFns)) <= 1 ==> (result.IsSchedulable <==> old(allTaskCapacityOK(ssn, task, job, node)))
+//@   ensures [logsSame] logsSame()
+//@   ensures [virtual] noEmission() && reversals() == old(reversals()) && reverseFailures() == old(reverseFailures())
+//@   ensures [sessionKept] old(sessOK(ssn)) ==> sessionKept(ssn)
+//@   ensures [resultNonNil] result != nil
+//@ end
+
+// C05/C06: "can the reclaimer get more resources": the first registered function decides, false if none
+//@ func (*Session).CanReclaimResources
+//@   props C05 C06
+//@   usestable []Operation Session.ClusterInfo Session.Cache Session.eventHandlers []*EventHandler ClusterInfo.PodGroupInfos ClusterInfo.Nodes map[common_info.PodGroupID]*podgroup_info.PodGroupInfo map[string]*node_info.NodeInfo
+//@   requires ssn != nil
+//@   assume forall i int :: 0 <= i && i < len(ssn.CanReclaimResourcesFns) ==> ssn.CanReclaimResourcesFns[i] != nil
+//@   note assumed: no nil function is registered
+//@   modifies *
+//@   ensures [firstDecides] result == old(len(ssn.CanReclaimResourcesFns) > 0 && api.canReclaim(ssn.CanReclaimResourcesFns[0], reclaimer))
+//@   ensures [logsSame] logsSame()
+//@   ensures [virtual] noEmission() && reversals() == old(reversals()) && reverseFailures() == old(reverseFailures())
+//@   ensures [sessionKept] old(sessOK(ssn)) ==> sessionKept(ssn)
+//@ end
+
+// queue resource getters: the first registered function decides, nil if none
+//@ func (*Session).QueueDeservedResources
+//@   props C05 C07
+//@   usestable []Operation Session.ClusterInfo Session.Cache Session.eventHandlers []*EventHandler ClusterInfo.PodGroupInfos ClusterInfo.Nodes map[common_info.PodGroupID]*podgroup_info.PodGroupInfo map[string]*node_info.NodeInfo
+//@   requires ssn != nil
+//@   assume forall i int :: 0 <= i && i < len(ssn.GetQueueDeservedResourcesFns) ==> ssn.GetQueueDeservedResourcesFns[i] != nil
+//@   note assumed: no nil function is registered
+//@   modifies *
+//@   ensures [firstDecides] result == old(ite(len(ssn.GetQueueDeservedResourcesFns) > 0, api.queueResourceOf(ssn.GetQueueDeservedResourcesFns[0], queue), nil))
+//@   ensures [logsSame] logsSame()
+//@   ensures [virtual] noEmission() && reversals() == old(reversals()) && reverseFailures() == old(reverseFailures())
+//@   ensures [sessionKept] old(sessOK(ssn)) ==> sessionKept(ssn)
+//@ end
+//@ func (*Session).QueueFairShare
+//@   props C05 C07
+//@   usestable []Operation Session.ClusterInfo Session.Cache Session.eventHandlers []*EventHandler ClusterInfo.PodGroupInfos ClusterInfo.Nodes map[common_info.PodGroupID]*podgroup_info.PodGroupInfo map[string]*node_info.NodeInfo
+//@   requires ssn != nil
+//@   assume forall i int :: 0 <= i && i < len(ssn.GetQueueFairShareFns) ==> ssn.GetQueueFairShareFns[i] != nil
+//@   note assumed: no nil function is registered
+//@   modifies *
+//@   ensures [firstDecides] result == old(ite(len(ssn.GetQueueFairShareFns) > 0, api.queueResourceOf(ssn.GetQueueFairShareFns[0], queue), nil))
+//@   ensures [logsSame] logsSame()
+//@   ensures [virtual] noEmission() && reversals() == old(reversals()) && reverseFailures() == old(reverseFailures())
+//@   ensures [sessionKept] old(sessOK(ssn)) ==> sessionKept(ssn)
+//@ end
+//@ func (*Session).QueueAllocatedResources
+//@   props C05 C07
+//@   usestable []Operation Session.ClusterInfo Session.Cache Session.eventHandlers []*EventHandler ClusterInfo.PodGroupInfos ClusterInfo.Nodes map[common_info.PodGroupID]*podgroup_info.PodGroupInfo map[string]*node_info.NodeInfo
+//@   requires ssn != nil
+//@   assume forall i int :: 0 <= i && i < len(ssn.GetQueueAllocatedResourcesFns) ==> ssn.GetQueueAllocatedResourcesFns[i] != nil
+//@   note assumed: no nil function is registered
+//@   modifies *
+//@   ensures [firstDecides] result == old(ite(len(ssn.GetQueueAllocatedResourcesFns) > 0, api.queueResourceOf(ssn.GetQueueAllocatedResourcesFns[0], queue), nil))
+//@   ensures [logsSame] logsSame()
+//@   ensures [virtual] noEmission() && reversals() == old(reversals()) && reverseFailures() == old(reverseFailures())
+//@   ensures [sessionKept] old(sessOK(ssn)) ==> sessionKept(ssn)
+//@ end
+
+// every registered OnJobSolutionStartFn is called exactly once, in registration order (ghost call log of package api)
+//@ func (*Session).OnJobSolutionStart
+//@   props C05 C06
+//@   usestable []Operation
+//@   requires ssn != nil
+//@   assume forall i int :: 0 <= i && i < len(ssn.OnJobSolutionStartFns) ==> ssn.OnJobSolutionStartFns[i] != nil
+//@   note assumed: no nil function is registered
+//@   modifies *
+//@   loop 1
+//@     modifies *
+//@     invariant 0 - 1 <= rangeindex && rangeindex < len(ssn.OnJobSolutionStartFns)
+//@     invariant ssn.OnJobSolutionStartFns == old(ssn.OnJobSolutionStartFns)
+//@     invariant api.jobSolutionStartCalls() == old(api.jobSolutionStartCalls()) + rangeindex + 1
+//@     invariant forall i int :: 0 <= i && i <= rangeindex ==> api.jobSolutionStartAt(old(api.jobSolutionStartCalls()) + i + 1) == old(ssn.OnJobSolutionStartFns[i])
+//@     invariant pluginFrame() && skeletonFrame() && solutionStartHooksSame()
+//@     decreases len(ssn.OnJobSolutionStartFns) - rangeindex
+//@   ensures [eachOnce] api.jobSolutionStartCalls() == old(api.jobSolutionStartCalls()) + old(len(ssn.OnJobSolutionStartFns))
+//@   ensures [inOrder] forall i int :: 0 <= i && i < old(len(ssn.OnJobSolutionStartFns)) ==> api.jobSolutionStartAt(old(api.jobSolutionStartCalls()) + i + 1) == old(ssn.OnJobSolutionStartFns[i])
+//@   ensures [logsSame] logsSame()
+//@   ensures [virtual] noEmission() && reversals() == old(reversals()) && reverseFailures() == old(reverseFailures())
+//@   ensures [sessionKept] old(sessOK(ssn)) ==> sessionKept(ssn)
+//@ end
+
 //@ func (*Session).PodSetOrderFn
 //@   props C01 C03 C04
 //@   trusted
@@ -1023,5 +1180,10 @@ package framework
 //@ stable Session.ReclaimVictimFilterFns
 //@ stable Session.PreemptVictimFilterFns
 // (helper "sess") the registration slices of the dispatch wrappers: each is written only by its Add...Fn method
+//@ stable slicetype []Operation
 //@ stable Session.PredicateFns
 //@ stable slicetype []api.PredicateFn
+//@ stable Session.PrePredicateFns
+//@ stable slicetype []api.PrePredicateFn
+//@ stable Session.PreJobAllocationFns
+//@ stable slicetype []api.PreJobAllocationFn
